@@ -184,9 +184,11 @@ class Node(object):
             self._children.insert(index, child)
             child.parent = self
 
-        if self.nsmap == child.nsmap:
+        if self.nsmap == child.nsmap and list(self.nsmap) == list(child.nsmap):
             child.nsmap = self.nsmap
         else:
+            # Also taken for equal maps that differ in prefix order: the
+            # child keeps its own declaration order
             for prefix in self.nsmap:
                 if prefix not in child.nsmap:
                     child.add_namespace(prefix, self.nsmap[prefix])
